@@ -1,7 +1,7 @@
 use super::segment_batch::SegmentBatch;
 use crate::engine::core::read::cache::{
-    GlobalColumnBlockCache, GlobalColumnHandleCache, GlobalIndexCatalogCache, GlobalZoneIndexCache,
-    GlobalZoneSurfCache,
+    GlobalColumnBlockCache, GlobalColumnHandleCache, GlobalEnumCache, GlobalIndexCatalogCache,
+    GlobalZoneIndexCache, GlobalZoneSurfCache, GlobalZoneXorFilterCache,
 };
 use crate::engine::core::segment::segment_id::SegmentId;
 use crate::engine::core::{SegmentEntry, SegmentIndex};
@@ -324,6 +324,11 @@ impl CompactionHandover {
             self.zone_index_cache.invalidate_segment(label);
             self.index_catalog_cache.invalidate_segment(label);
             self.column_block_cache.invalidate_segment(label);
+            // Segment labels are handed out again once retired, so the enum bitmap (.ebm) and
+            // zone XOR filter (.zxf) caches must forget the label too, or the next segment of
+            // that name is pruned with the retired segment's bitmaps/filters.
+            GlobalEnumCache::instance().invalidate_segment(label);
+            GlobalZoneXorFilterCache::instance().invalidate_segment(label);
             debug!(
                 target: "compaction_handover::cache",
                 shard = self.shard_id,
